@@ -459,6 +459,9 @@ func (h *harness) smallScope(maxLen int) {
 	}
 	rec(nil)
 	h.tieS.Count(fmt.Sprintf("alphabet=%d maxLen=%d", len(alpha), maxLen))
+	if maxLen > 3 {
+		maxLen = 3 // the further families stay at length 3 in the thorough tier too
+	}
 	// the same under the lower-casing id interceptor: two spellings of one id, and the empty id with id
 	// generation from an all-zero rng (every candidate of a length is the same string: collisions)
 	alpha = nil
